@@ -82,7 +82,8 @@ def stepR (s : St) : List St :=
   | .postEof => [{ s with r := .exit }]         -- `done` closed → return; else EOF → return
   | .postErr => [if s.doneClosed then { s with r := .exit } else { s with r := .send }]
   | .send => [if s.doneClosed then { s with r := .exit } else { s with r := .parked }]
-  | .parked => if s.doneClosed then [{ s with r := .exit }] else []
+  | .parked => []                               -- moved by a receiver (→ sent) or by close(done) (→ woken)
+  | .woken => [{ s with r := .exit }]
   | .sent => [{ s with r := .top }]             -- sleep, continue
   | .exit =>
     [if s.rlDone then { s with r := .dead, exited := true, panic := .closeOfClosed }
@@ -94,12 +95,18 @@ transport/transport.go `Close` -/
 def stepK (s : St) : List St :=
   match s.k with
   | .idle => [if s.nc then { s with k := .ncDone } else { s with k := .entry }]
-  | .ncDone => [{ s with k := .ncChan, ncDoneClosed := true }]   -- closeOnce.Do(close(d.done))
+  | .ncDone =>
+    -- closeOnce.Do(close(d.done)); closing the channel commits a read loop parked in
+    -- `select { d.errs <- err; <-d.done }` to the done case
+    [{ s with k := .ncChan, ncDoneClosed := true, n := if s.n = .parked then .woken else s.n }]
   | .ncChan => [{ s with k := .entry }]
   | .entry =>
     [if s.closedFlag then { s with k := .ret } else { s with k := .signal, closedFlag := true }]
   | .signal =>
-    [if s.doneClosed then { s with panic := .closeOfClosed } else { s with k := .select, doneClosed := true }]
+    -- close(c.done); closing the channel commits a read loop parked in
+    -- `select { c.Errs <- err; <-c.done }` to the done case
+    [if s.doneClosed then { s with panic := .closeOfClosed }
+     else { s with k := .select, doneClosed := true, r := if s.r = .parked then .woken else s.r }]
   | .select =>
     -- the grace timer is an always enabled alternative; the other one needs readLoopDone closed
     if s.rlDone then [{ s with k := .force }, { s with k := .nice }] else [{ s with k := .force }]
@@ -137,7 +144,8 @@ def stepN (s : St) : List St :=
       else [{ s with n := .sent, w := .got }]
     else
       [if s.ncDoneClosed then { s with n := .dead } else { s with n := .parked }]
-  | .parked => if s.ncDoneClosed then [{ s with n := .dead }] else []
+  | .parked => []                               -- moved by a waiter (→ sent) or by close(d.done) (→ woken)
+  | .woken => [{ s with n := .dead }]
   | .sent => [{ s with n := .top }]
   | .dead => []
 
@@ -215,7 +223,7 @@ def accR : RPc → List (Var × Acc)
   | .top => [(.done, .sync)] | .pre => [(.implLock, .sync)] | .inRead => [(.implLock, .sync)]
   | .postOk => [(.queue, .sync)] | .postEof => [(.done, .sync)] | .postErr => [(.done, .sync)]
   | .send => [(.errs, .sync), (.done, .sync)] | .parked => [(.errs, .sync), (.done, .sync)]
-  | .sent => [] | .exit => [(.exitedFlag, .sync), (.readLoopDone, .sync)] | .dead => []
+  | .woken => [] | .sent => [] | .exit => [(.exitedFlag, .sync), (.readLoopDone, .sync)] | .dead => []
 def accK : KPc → List (Var × Acc)
   | .ncDone => [(.ncDone, .sync)]
   | .entry => [(.closedFlag, .sync)] | .signal => [(.done, .sync)] | .select => [(.readLoopDone, .sync)]
@@ -264,6 +272,8 @@ def inv (s : St) : Bool :=
   && (!s.second || s.k = .ncDone || s.k = .ncChan || s.k = .entry || s.k = .ret)
   -- the graceful path is only taken after the read loop has exited (so `implLock` is free)
   && (!(s.k = .nice || s.k = .niceLk) || s.r = .dead)
+  -- nobody is parked on a select whose `done` alternative is ready
+  && (!(s.r = .parked) || !s.doneClosed) && (!(s.n = .parked) || !s.ncDoneClosed)
   -- which processes exist
   && (if s.nc then s.o = .absent && s.n ≠ .absent
       else s.n = .absent && s.w = .absent && s.k ≠ .ncDone && s.k ≠ .ncChan)
